@@ -170,6 +170,10 @@ pub fn gen_duration(rng: &mut Rng, k: &Knobs) -> f32 {
             rng.range(1, 80)
         };
         m as f32 / 8.0
+    } else if k.extreme && rng.chance(0.06) {
+        // the smallest cycle durations there are: subnormal and just-normal numbers, for which
+        // halves, reciprocals and products with small factors underflow or overflow
+        *rng.pick(&[f32::from_bits(1), f32::from_bits(2), 1e-40f32, f32::MIN_POSITIVE, 2.0e-38, 3.0e-39])
     } else if k.extreme && rng.chance(0.2) {
         *rng.pick(&[1e-6f32, 1e-3, 1e4, 1e9, 1e15, 1e20]) * (1.0 + rng.unit() as f32)
     } else {
@@ -216,7 +220,10 @@ fn gen_positions(rng: &mut Rng, k: &Knobs, count: usize) -> Vec<f32> {
         guard += 1;
         let p = match rng.below(6) {
             // (rarely a hair above 0%: closer to 0 than f32::EPSILON, yet a distinct position)
-            0 if rng.chance(0.04) => *rng.pick(&[1.0e-9f32, f32::MIN_POSITIVE, 1.0e-7, 5.0e-8]),
+            // (subnormal positions: the gap to 0% has no finite reciprocal)
+            0 if rng.chance(0.04) => *rng.pick(&[1.0e-9f32, f32::MIN_POSITIVE, 1.0e-7, 5.0e-8, 1.0e-40, f32::from_bits(1)]),
+            // (and rarely a hair below 100%)
+            1 if rng.chance(0.02) => *rng.pick(&[1.0 - f32::EPSILON / 2.0, 1.0 - f32::EPSILON]),
             0 => 0.0,
             1 => 1.0,
             2 | 3 => rng.range(1, 7) as f32 / 8.0,
